@@ -21,6 +21,48 @@ CHECKS = {
         "A unit with a single declaration and a wrong constant is undetectable by mutual consistency. Exact arithmetic: float literals are taken as the exact binary values written.",
         "§4 C09, §2.5",
     ),
+    "C04": (
+        "Hypothesis constructive generation inside the shape-defined domain D_ok + synthetic exactly-consistent unit systems in fresh worlds + pinned corpus; exact rational size oracle from intercepted declarations",
+        "Exploration: generated conversions (constructed inside the planner's sound domain D_ok, unrestricted shapes for statistics, synthetic worlds with redundant consistent definitions, pinned corpus outside D_ok) are compared with magnitude x size ratio solved exactly from the declarations; result unit identity checked. Failures outside D_ok are the recorded K-PLAN finding; inside D_ok / synthetic / pinned they are violations.",
+        "Sizes come from the declarations as written (float literals taken exactly). Pairs not determined by declarations are not asserted on. Cases whose exact intermediates leave 1e+-250 are inconclusive.",
+        "§4 C04, §2.5, §2.7, §2.8",
+    ),
+    "C05": (
+        "Hypothesis metamorphic testing over unit triples: linearity, zero, sign, self-conversion (all shapes); round trip and route independence (D_ok, synthetic worlds, pinned corpus)",
+        "Exploration: metamorphic relations need no expected value, so linearity/zero/sign/self-conversion are enforced over the whole shape space whenever conversions return; round trip and A->C->B = A->B are enforced inside D_ok, on synthetic exactly-consistent worlds and on the pinned corpus.",
+        "Tolerances per DESIGN 2.9; relations only when all conversions involved returned.",
+        "§4 C05",
+    ),
+    "C06": (
+        "Hypothesis metamorphic testing: operands re-expressed by the exact oracle in other units/prefixes (incl. mixed SI/IEC); SI value of + - * / ** and truth of == < compared with exact rational arithmetic",
+        "Exploration: each operand is replaced by an oracle-computed equal quantity in another unit; SI values of results and truth values away from ties must not change. * / ** are checked on all shapes, + - == < with unit pairs inside D_ok.",
+        "Ties (exact values closer than the applicable tolerance) get no order/equality clause; magnitudes outside 1e+-60 are inconclusive.",
+        "§4 C06",
+    ),
+    "C07": (
+        "Hypothesis generation of convertible, disconnected and partially connected pairs (shipped, synthetic worlds, long chains) + differential execution of the same case list under python and python -O in fresh subprocesses",
+        "Exploration + differential: only ConversionNotFound may escape in_unit/+/-, == is a bool, ordering may raise TypeError; records of python vs python -O must be identical. AssertionError outside D_ok and RecursionError on chains >= 400 are recorded findings (exact call sites); anything else, or anything inside D_ok, is a violation.",
+        "Outcome records compare exception class + innermost frame or repr(magnitude) + str(unit).",
+        "§4 C07",
+    ),
+    "C10": (
+        "exhaustive 12 pairs x 30 x 30 prefix grid with a fixed magnitude table + Hypothesis magnitudes; closed-form Fraction oracle (273.15, 459.67 exact)",
+        "Exploration with an exhaustively enumerated (pair, prefix, prefix) grid: direct value, round trip, absolute zero, differences, == and < across scales against exact affine formulas.",
+        "Tolerance 1e-9 x the largest magnitude the temperature takes along the celsius-kelvin-rankine-fahrenheit path; ties get only consistency clauses.",
+        "§4 C10",
+    ),
+    "C14": (
+        "Hypothesis + enumerated grid over operators, sign patterns, sigma=0, operand kinds, n in [-4,4], int/float/Decimal, unit re-expression; analytic partial-derivative oracle in Fractions with 50-digit square root",
+        "Exploration: measurand and first-order Gaussian uncertainty of + - * / ** compared with an exact analytic oracle; non-negativity, plain-quantity-as-zero-sigma and unit independence clauses.",
+        "rel 1e-9 (2e-5 / 4e-5 where + - convert between different base units over shipped definitions).",
+        "§4 C14",
+    ),
+    "C18": (
+        "Hypothesis + enumerated grid over logarithm families (shipped and generated prefix x base), 12 dimension classes, unit spellings; closed-form 50-digit Decimal oracle",
+        "Exploration: level of a quantity, quantity of a level, both round trips, strict monotonicity and level == approximately(quantity) in both orders against the logarithmic definition with independently tabulated unit sizes and root-power dimensions.",
+        "Level tolerance 1e-9 x max(|L|, (k/p)/|ln b|); exact levels outside [-200,200] excluded; unit spellings restricted to D_ok.",
+        "§4 C18",
+    ),
 }
 
 NOT_YET = {}
